@@ -35,6 +35,7 @@ type c17Case struct {
 	Accept      string
 	Method      string
 	ExtraHdr    string
+	Early       int // 0 none; 1: 103 Early Hints before the handler sets its headers; 2: after
 }
 
 func (cs *c17Case) body() []byte {
@@ -103,6 +104,10 @@ func genC17(r *rand.Rand, id int) *c17Case {
 	if r.Intn(3) == 0 {
 		cs.ExtraHdr = fmt.Sprintf("v%d", r.Intn(1000))
 	}
+	if r.Intn(8) == 0 {
+		cs.Early = 1 + r.Intn(2) // an informational response first; the final status is written explicitly
+		cs.ExplicitWH = true
+	}
 	return cs
 }
 
@@ -129,6 +134,10 @@ func c17Gzip(c *ctx) {
 		}
 		cs := v.(*c17Case)
 		body := cs.body()
+		if cs.Early == 1 {
+			w.Header().Set("Link", "</style.css>; rel=preload")
+			w.WriteHeader(http.StatusEarlyHints)
+		}
 		if cs.ContentType != "" {
 			w.Header().Set("Content-Type", cs.ContentType)
 		}
@@ -142,6 +151,9 @@ func c17Gzip(c *ctx) {
 			w.Header().Set("X-Inner", cs.ExtraHdr)
 			w.Header().Add("X-Multi", "a")
 			w.Header().Add("X-Multi", cs.ExtraHdr)
+		}
+		if cs.Early == 2 {
+			w.WriteHeader(http.StatusEarlyHints)
 		}
 		if cs.ExplicitWH {
 			w.WriteHeader(cs.Status)
